@@ -8,7 +8,7 @@ FIXES = [("24fbb47", ["C02"]), ("70eae11", ["C02"]), ("bd0d83b", ["C02"]), ("436
          ("9d4e87e", ["C04"]), ("37407ce", ["C04"]), ("31bac59", ["C15"]), ("beec7e9", ["C17"]), ("0ef61ee", ["C19"]), ("c35be22", ["C11"]),
          ("830172c", ["C11"]), ("93dbb52", ["C05"]), ("bdb9833", ["C08"]), ("fa67f1e", ["C06"]), ("839be6a", ["C06"]), ("a29fead", ["C06"]),
          ("cff32f3", ["C02"]), ("efa07ab", ["C09"]), ("47ae72d", ["C08"]), ("4bff492", ["C11"]), ("31e1d65", ["C16"]), ("e36eb6d", ["C17"]),
-         ("7478f56", ["C15"]), ("0ef3b03", ["C07"]), ("01234af", ["C16"]), ("a9233ea", ["C09"]), ("7a2fc29", ["C17"]), ("4865a1a", ["C15"]), ("5eb3297", ["C05"])]
+         ("7478f56", ["C15"]), ("0ef3b03", ["C07"]), ("01234af", ["C16"]), ("a9233ea", ["C09"]), ("7a2fc29", ["C17"]), ("4865a1a", ["C15"]), ("5eb3297", ["C05"]), ("211d904", ["C02"])]
 
 
 def sh(cmd, **kw):
